@@ -14,6 +14,14 @@ CLAIMED = {
          "Exploration. Generated histories (up to 40 operations over a pool of live readers, with clones, splits, truncations, drops in any order) are run on six reader kinds in lock-step against a cursor model; after every step every live reader must view exactly the model's byte range of the original buffer. Both build profiles; the thorough tier adds a libFuzzer/ASan campaign over the same interpreter.",
          "Trusts the cursor model in harness/src/c10.rs and C09's LEB128 model; offset_from / range* are only called inside their documented preconditions; position after a failed read is resynchronised (may only shrink; all kinds must agree).",
          "DESIGN.md §4 C10"),
+ 'C06': ("exhaustive enumeration of short CFI programs + proptest random search against an independent call-frame state machine with exact storage-capacity accounting",
+         "Exploration. All instruction sequences of length <=4 over a 14-symbol alphabet (in the CIE, in the FDE, split) are enumerated completely; longer generated CIE+FDE programs over every DW_CFA opcode, boundary operands, all alignment-factor classes, address sizes and both frame sections are compared row by row (address range, CFA, every register rule, args size) and error by error with the model, on the default heap storage and on five custom storages whose limits are reached exactly and exceeded by one. Both build profiles.",
+         "Trusts the call-frame state machine and CFI assembler in harness/src/cfimodel.rs (written from DWARF 5 section 6.4 and gimli's documented storage representation). Products beyond 2^64 in advance_loc are left open.",
+         "DESIGN.md §4 C06, appendix A.2"),
+ 'C07': ("exhaustive enumeration of short expression programs and of all opcode bytes + proptest random programs with a scripted answer source, against an independent decoder and DWARF stack machine",
+         "Exploration. Every opcode byte is decoded under every configuration class; every program of length <=3 (<=4 thorough) over a 51-symbol alphabet is evaluated for each address size; generated longer programs with branches, pieces, nested calls, typed operations and every Requires* suspension are evaluated in lock-step with the model: every request, the pieces, value_result and the error kind must agree, iteration limits are probed around the exact operation count, and fixed-capacity storages are judged by refinement. Both build profiles.",
+         "Trusts the decoder and stack machine in harness/src/exprvm.rs (DESIGN appendix A.1). Results the standard leaves open are excluded (listed in the evidence assumptions).",
+         "DESIGN.md §4 C07, appendix A.1"),
 }
 NOT_YET = "check not built yet in this session (machinery is being extended property by property; see DESIGN.md §4)"
 
